@@ -69,7 +69,7 @@ func NewFanRamp(t *rapid.T) *Ramp {
 
 // NewRamp draws the stream-level plan.
 func NewRamp(t *rapid.T, big bool) *Ramp {
-	r := &Ramp{T: t, Big: big}
+	r := &Ramp{T: t, Big: big, Boundary: big}
 	r.Reuse = rapid.SampledFrom([]int{1, 1, 2, 5}).Draw(t, "reuse")
 	if big && r.Reuse == 5 {
 		r.Reuse = 2 // 13,000 ids per batch would need six giant batches to cross
@@ -119,10 +119,15 @@ func (r *Ramp) ids() []int {
 	r.plain = r.PlainPct > 0 && r.pct("plain", r.PlainPct)
 	n := rapid.SampledFrom(r.Sizes).Draw(r.T, "rampn")
 	fresh := rapid.SampledFrom(r.Fresh).Draw(r.T, "freshpct")
-	if r.Big && r.Next == 0 && r.pct("smallfirst", 25) {
+	if r.Big && r.Next == 0 && r.pct("smallfirst", 35) {
 		// open the sub-streams with a small batch; the crossing then happens on
-		// streams that exist already
-		n, fresh = rapid.SampledFrom([]int{3, 300, 1}).Draw(r.T, "smalln"), 100
+		// streams that exist already, from 8-bit indexes when the batch stays
+		// below 256 values
+		n, fresh = rapid.SampledFrom([]int{3, 200, 300, 1, 100}).Draw(r.T, "smalln"), 100
+	} else if r.Big && r.Next > 0 && r.Next <= 300 {
+		// ... in ONE jump: the next batch lands exactly on, one below or one
+		// above 65,535 distinct values while it holds at most 65,535 itself
+		n, fresh = 65535-r.Next+rapid.SampledFrom([]int{1, 1, 0, -1}).Draw(r.T, "jumpedge"), 100
 	} else if r.Big && r.Next < 70000 && r.pct("bigcross", 85) {
 		// scripted start: crossing 65,535 distinct values is the point of the
 		// big plan, leaving it to the size pool made it a 1-in-12 event
